@@ -2,7 +2,7 @@
 //!
 //! Reads one JSON request per line on stdin and prints one JSON answer per line:
 //!   {"op":"lex","src":S} | {"op":"compile","src":S} | {"op":"unindent","src":S}
-//!   {"op":"positional","words":[..]} | {"op":"group","src":S,"words":[..]}
+//!   {"op":"positional","words":[..]} | {"op":"group","src":S,"words":[..]} | {"op":"widths","src":S}
 //! Every call runs under catch_unwind on a worker thread with an 8 MiB stack (the size of the
 //! main thread of the real binary); a panic is reported as {"panic": message}.
 use std::io::{BufRead, Write};
@@ -24,6 +24,14 @@ fn handle(line: &str) -> String {
     "compile" => just::verif::compile(&src),
     "unindent" => serde_json::json!({"text": just::verif::unindent_text(&src)}).to_string(),
     "positional" => just::verif::positional(&words),
+    "widths" => {
+      // display width of every character of `src` as the unicode-width crate reports it
+      let widths: Vec<(u32, usize)> = src
+        .chars()
+        .map(|c| (c as u32, unicode_width::UnicodeWidthChar::width(c).unwrap_or(0)))
+        .collect();
+      serde_json::json!({"widths": widths}).to_string()
+    }
     "group" => just::verif::group(&src, &words),
     _ => serde_json::json!({"fatal": "unknown op"}).to_string(),
   });
